@@ -167,7 +167,6 @@ where
         _ => return Err("bad-op".into()),
     };
     let mut e = get_encoder::<T>(encoding, &d).map_err(|_| "ERR:enc".to_string())?;
-    e.put(&[]).map_err(|_| "ERR:enc".to_string())?;
     let mut pos = 0;
     for c in chunks(n) {
         e.put(&vals[pos..pos + c]).map_err(|_| "ERR:enc".to_string())?;
